@@ -203,9 +203,22 @@ def cl2(ctx):
     okn = len(news) == 2 and len(ms) == 1 and all(n["args"][1] == ms[0]["result"] for n in news)
     yield Ob(key_of("C17-Cl2", b.path, "min-seg-kept"), okn, "both H::new calls take the minimum segment size currently in force", b.loc())
     if len(news) == 2:
-        got = sorted(repr(n["args"][0]) for n in news)
-        want = sorted(repr(x) for x in (d_unify, d_plain))
-        yield Ob(key_of("C17-Cl2", b.path, "cursor-init"), got == want, "H::new cursor argument is data_offset in both layouts: %s" % [short(n["args"][0], 80) for n in news], b.loc())
+        # the cursor argument of each H::new is the data offset of the layout its call site belongs to (self.unify true / false), whether it is
+        # computed in place or taken from a value joined earlier under the same test
+        IMM = {"unify", "reserved", "ptr", "cap"}
+        U = canon(("hload", SELF, ("unify",), ("v", 0)), IMM)
+        okc = True
+        det = []
+        for n in news:
+            for (val,), fs in split_on_own_phis(ctx, ev, res, n, [n["args"][0]]):
+                fs = set(canon(f, IMM) for f in fs)
+                if ("bool", U, True) in fs and ("bool", U, False) in fs:
+                    continue   # the value joined on the other layout's edge cannot reach this call site
+                want = d_unify if ("bool", U, True) in fs else (d_plain if ("bool", U, False) in fs else None)
+                good = want is not None and term_eq(canon(val, IMM), canon(want, IMM))
+                det.append((short(val, 60), good))
+                okc = okc and good
+        yield Ob(key_of("C17-Cl2", b.path, "cursor-init"), okc and len(det) >= 2, "H::new cursor argument is data_offset in both layouts: %s" % det, b.loc())
     okw = len(pw) == 1 and term_eq(sub(pw[0]["dst"], ("hload", SELF, ("ptr",), ("v", 0))), hoff) and news and pw[0]["value"] in [n["result"] for n in news]
     yield Ob(key_of("C17-Cl2", b.path, "header-write"), bool(okw), "unified layout: header written at ptr + alignUp(H,reserved)+align_of H with the new H", b.loc())
     stores = [e for e in res.log if is_heap_store(e)]
